@@ -409,6 +409,10 @@ pub fn generate(seed: u64, run: u64) -> BerCfg {
     cfg.max_frame_errors = *g.pick(&[1u64, 2, 3, 5, 8]);
     cfg.max_iterations = 5;
     cfg.reporter_interval_ns = None;
+    // an outer-code threshold is not part of (H, modulation, puncturing, interleaver, Eb/N0): the
+    // chain, the noise and the reported sizes must not depend on it (seeded change C12-r5-2
+    // takes "BCH parity bits" off the rate)
+    cfg.bch_max_errors = if k > 3 { *g.pick(&[0u64, 0, 0, 1, 2]) } else { 0 };
     let keep_sys = g.chance(1, 2);
     for _ in 0..20 {
         gen_chain(&mut g, &mut cfg, keep_sys, FaultClass::None);
